@@ -743,6 +743,10 @@ impl Qcow2HeaderExtension {
                 Qcow2HeaderExtensionType::FeatureNameTable => {
                     let mut feats = HashMap::new();
                     for feat in data.chunks(48) {
+                        // a truncated trailing entry holds no name
+                        if feat.len() < 2 {
+                            continue;
+                        }
                         let feat_type: Qcow2FeatureType = match feat[0].try_into() {
                             Ok(ft) => ft,
                             Err(_) => continue, // skip unrecognized entries
